@@ -461,6 +461,47 @@ class CorpusCrate:
         return obs, died
 
 
+GENPROBE_DIR = os.path.join(VERIF, "harness", "genprobe")
+
+
+def build_genprobe():
+    """the real generator sources of /repo's working tree compiled into a command-line probe"""
+    lock = os.path.join(GENPROBE_DIR, "Cargo.lock")
+    if not os.path.exists(lock):
+        shutil.copy(os.path.join(REPO, "Cargo.lock"), lock)
+    t = time.time()
+    r = sh(["cargo", "build", "--offline", "--release"], cwd=GENPROBE_DIR, timeout=1800)
+    log("cargo build genprobe: rc=%d %.1fs" % (r.returncode, time.time() - t))
+    if r.returncode != 0:
+        return None, (r.stdout + r.stderr)[-3000:]
+    return os.path.join(TARGET, "release", "genprobe"), None
+
+
+def run_genprobe(binp, lines, workdir, shards=16):
+    """lines: ['<cmd> <n> ...']; sharded over processes; -> {n: obs}"""
+    os.makedirs(workdir, exist_ok=True)
+    files = []
+    for s in range(shards):
+        part = lines[s::shards]
+        if not part:
+            continue
+        fp = os.path.join(workdir, "probe_%d.txt" % s)
+        with open(fp, "w") as f:
+            f.write("\n".join(part) + "\n")
+        files.append(fp)
+    obs = {}
+    died = []
+
+    def one(fp):
+        return fp, subprocess.run([binp, fp], stdout=subprocess.PIPE, stderr=subprocess.PIPE, text=True, timeout=3000)
+    with ThreadPoolExecutor(max_workers=16) as ex:
+        for fp, r in ex.map(one, files):
+            obs.update(parse_obs(r.stdout))
+            if r.returncode != 0:
+                died.append((fp, r.returncode, r.stderr[-1000:]))
+    return obs, died
+
+
 # ------------------------------------------------------------------------------------------
 # corpus files
 # ------------------------------------------------------------------------------------------
